@@ -591,6 +591,33 @@ def t1_pool(ctx, mode):
                 if tuple(body_done) != tuple(sorted(body_done)):
                     ctx.probe("body_order_differs_from_submission")
                 all_orders.append((tuple(sorted(failing)), tuple(body_done), order))
+                if completion is not None and exc is None and 2 <= n_tasks <= 4 and len(completion) == n_tasks:
+                    ctx.collect("completion_orders", (n_tasks, min(n_workers, n_tasks), tuple(completion)))
+                elif mode == "thread" and exc is None and 2 <= n_tasks <= 4 and len(body_done) == n_tasks:
+                    ctx.collect("body_completion_orders", (n_tasks, min(n_workers, n_tasks), tuple(body_done)))
     ctx.sim_time += clock.covered
     ctx.case((tag, n_tasks, n_workers, tuple(all_orders)), nontrivial=n_tasks >= 2 and n_workers >= 2)
     ctx.sample = {"cfg": cfg, "rounds": rounds_desc, "orders(failing, body, completion/callback)": [list(map(list, o)) for o in all_orders]}
+
+
+def order_coverage(pm):
+    """Covered fraction of the completion orders a FIFO pool allows, for 2-4 tasks.
+
+    With w workers and n tasks started in index order, the k-th completion (k = 0, 1, ...) can be any
+    started and unfinished task: min(n - k, w) choices, so the pool allows prod_k min(n - k, w) orders.
+    """
+    out = {}
+    for name in ("completion_orders", "body_completion_orders"):
+        seen = pm["collected"].get(name, set())
+        per = {}
+        for n, w, order in seen:
+            per.setdefault((n, w), set()).add(order)
+        table = {}
+        for (n, w), orders in sorted(per.items()):
+            allowed = 1
+            for k in range(n):
+                allowed *= min(n - k, w)
+            table[f"n_tasks={n},n_workers={w}"] = {"allowed": allowed, "reached": len(orders), "all_reached": len(orders) >= allowed}
+        if table:
+            out[name + "_coverage"] = table
+    return out
